@@ -25,7 +25,7 @@ e = 2.718281828459045
 intp = int64
 int_ = int64
 double = float64
-from ._core import float32, float16, int32
+from ._core import float32, float16, int32, int16, int8, unsignedinteger, uint8, uint16, uint32, uint64
 unicode_ = None
 del unicode_
 bool = bool_     # numpy 2 exports np.bool
